@@ -377,6 +377,20 @@ impl Router {
         self.connection_map.insert(client_id.clone(), connection_id);
         info!(connection_id, "Client connection registered");
 
+        // a resumed session takes its place in the groups of its shared subscriptions again
+        // (it left them when it disconnected); a group that is gone starts where the session is
+        for request in tracker.data_requests.iter() {
+            if let Some(group_name) = &request.group {
+                self.shared_subscriptions
+                    .entry(group_name.clone())
+                    .or_insert(SharedGroup::new(
+                        request.cursor,
+                        self.config.shared_subscriptions_strategy.clone(),
+                    ))
+                    .add_client(client_id.clone());
+            }
+        }
+
         assert_eq!(self.ackslog.insert(ackslog), connection_id);
         assert_eq!(self.scheduler.add(tracker), connection_id);
 
@@ -482,6 +496,13 @@ impl Router {
         let inflight_data_requests = self.datalog.clean(id);
         let retransmissions = outgoing.retransmission_map();
 
+        // where the shared subscription groups are when this member leaves them
+        let group_cursors: HashMap<String, Cursor> = self
+            .shared_subscriptions
+            .iter()
+            .map(|(name, group)| (name.clone(), group.cursor))
+            .collect();
+
         // Remove connections from all groups and
         // discard empty group ( group with no client )
         // note: can we do this in better way?
@@ -523,6 +544,12 @@ impl Router {
                 .for_each(|r| tracker.register_data_request(r));
 
             for request in tracker.data_requests.iter_mut() {
+                // a shared subscription is read through its group's cursor; the request's own
+                // one lags behind while other members take their turns. The saved session
+                // continues where the group is now, also if the group is gone by then
+                if let Some(cursor) = request.group.as_ref().and_then(|g| group_cursors.get(g)) {
+                    request.cursor = *cursor;
+                }
                 if let Some(cursor) = retransmissions.get(&request.filter_idx) {
                     request.cursor = *cursor;
                     // reset the group cursor
